@@ -2,7 +2,7 @@
 // + apply + undo, NOT count_positions) against the published perft figures of five standard test positions, with
 // a fresh generator and with one generator reused across all positions and depths (C02: answers must not depend
 // on what the generator was asked before).
-// Bound: start position depths 1..4, Kiwipete 1..3, "position 3" 1..4, "position 4" 1..3, "position 5" 1..3.
+// Bound: start position depths 1..5, Kiwipete 1..3, "position 3" 1..4, "position 4" 1..3, "position 5" 1..3.
 include!("common.rs");
 
 fn from_fen(placement: &str, white_to_move: bool, rights: &str) -> Board {
@@ -42,7 +42,7 @@ fn perft(b: &mut Board, mg: &mut MoveGenerator, color: Color, depth: u8) -> u64 
 
 fn suite() -> Vec<(&'static str, Board, Vec<u64>)> {
     vec![
-        ("start", Board::starting_position(), vec![20, 400, 8902, 197281]),
+        ("start", Board::starting_position(), vec![20, 400, 8902, 197281, 4865609]),
         ("kiwipete", from_fen("r3k2r/p1ppqpb1/bn2pnp1/3PN3/1p2P3/2N2Q1p/PPPBBPPP/R3K2R", true, "KQkq"), vec![48, 2039, 97862]),
         ("position 3", from_fen("8/2p5/3p4/KP5r/1R3p1k/8/4P1P1/8", true, ""), vec![14, 191, 2812, 43238]),
         ("position 4", from_fen("r3k2r/Pppp1ppp/1b3nbN/nP6/BBP1P3/q4N2/Pp1P2PP/R2Q1RK1", true, "kq"), vec![6, 264, 9467]),
@@ -74,4 +74,34 @@ fn leaf_counts_do_not_depend_on_what_the_generator_was_asked_before() {
             }
         }
     }
+}
+
+/// en passant on every pair of adjacent files, both colours (kings far away: no pin can interfere)
+#[test]
+fn en_passant_is_offered_on_every_file_pair() {
+    use chess::chess_move::standard::StandardChessMove;
+    for capturer_file in 0..8i32 { for df in [-1i32, 1] {
+        let pusher_file = capturer_file + df;
+        if !(0..8).contains(&pusher_file) { continue; }
+        for white_captures in [true, false] {
+            let (cap_rank, push_from, push_to, target_rank) = if white_captures { (4, 6, 4, 5) } else { (3, 1, 3, 2) };
+            let (cc, pc) = if white_captures { (Color::White, Color::Black) } else { (Color::Black, Color::White) };
+            let mut b = Board::new();
+            b.put(Bitboard(1u64 << 4), Piece::King, Color::White).unwrap();       // e1
+            b.put(Bitboard(1u64 << 60), Piece::King, Color::Black).unwrap();      // e8
+            b.put(Bitboard(1u64 << (cap_rank * 8 + capturer_file)), Piece::Pawn, cc).unwrap();
+            b.put(Bitboard(1u64 << (push_from * 8 + pusher_file)), Piece::Pawn, pc).unwrap();
+            b.lose_castle_rights(0b1111);
+            b.set_turn(pc);
+            ChessMove::Standard(StandardChessMove::new(Bitboard(1u64 << (push_from * 8 + pusher_file)), Bitboard(1u64 << (push_to * 8 + pusher_file)), None)).apply(&mut b).unwrap();
+            b.toggle_turn();
+            let moves = MoveGenerator::new().generate_moves(&mut b, cc);
+            let from = Bitboard(1u64 << (cap_rank * 8 + capturer_file));
+            let to = Bitboard(1u64 << (target_rank * 8 + pusher_file));
+            let n = moves.iter().filter(|m| matches!(m, ChessMove::EnPassant(_)) && m.from_square() == from && m.to_square() == to).count();
+            assert_eq!(n, 1, "{:?} pawn on file {} must be offered exactly one en passant capture onto file {} (found {})", cc, capturer_file, pusher_file, n);
+            let other_ep = moves.iter().filter(|m| matches!(m, ChessMove::EnPassant(_))).count();
+            assert_eq!(other_ep, 1, "no other en passant capture may be listed");
+        }
+    } }
 }
